@@ -1357,10 +1357,37 @@ impl Vm {
         let closure = self.new_root_obj_closure(function.as_gc(), module);
         self.push(Value::ObjClosure(closure.as_gc()));
 
-        self.call_value(self.peek(0), 0)?;
-        let active_module_path = self.active_module.borrow().path;
-        self.init_built_in_globals(&active_module_path);
-        Ok(())
+        self.init_built_in_globals(&path);
+        let entered = self.call_value(self.peek(0), 0);
+        // The call may have failed (too many active calls): whether or not a handler took the error,
+        // the module's code never started, so nothing was loaded.
+        if entered.is_err() || self.active_module != module {
+            self.modules.remove(&path);
+        }
+        entered
+    }
+
+    /// A module whose top-level code is abandoned - by an exception that leaves it - has not been
+    /// loaded: it is forgotten, so that a later import of the same path starts afresh instead of
+    /// meeting a module that looks as if it were still being loaded.
+    fn forget_abandoned_modules(&mut self, fiber: Gc<RefCell<ObjFiber>>, frames_kept: usize) {
+        let abandoned: Vec<Gc<ObjString>> = fiber
+            .borrow()
+            .frames
+            .iter()
+            .skip(frames_kept)
+            .filter(|frame| frame.closure.function.name.is_empty())
+            .map(|frame| frame.closure.module.borrow().path)
+            .collect();
+        for path in abandoned {
+            let unfinished = match self.modules.get(&path) {
+                Some(module) => !module.borrow().imported && path.as_str() != "main",
+                None => false,
+            };
+            if unfinished {
+                self.modules.remove(&path);
+            }
+        }
     }
 
     fn finish_import_impl(&mut self) {
@@ -1628,6 +1655,9 @@ impl Vm {
         self.active_fiber_mut()
             .stack
             .truncate(handler.init_stack_size);
+        if let Some(fiber) = self.fiber.as_ref().map(|fiber| fiber.as_gc()) {
+            self.forget_abandoned_modules(fiber, handler.frame_count);
+        }
         self.active_fiber_mut().frames.truncate(handler.frame_count);
         // (`has_catch_block` is true when the catch and finally targets coincide, i.e. when the
         // statement has only a finally block.)
@@ -1670,6 +1700,7 @@ impl Vm {
         // An uncaught error ends the active fiber and every fiber waiting for it.
         let mut next = self.fiber.as_ref().map(|fiber| fiber.as_gc());
         while let Some(fiber) = next {
+            self.forget_abandoned_modules(fiber, 0);
             let mut borrowed_fiber = fiber.borrow_mut();
             // Closures created by the discarded frames may outlive them.
             borrowed_fiber.close_upvalues(0);
